@@ -1,5 +1,297 @@
-import EnvVerif.Lemmas.Basic
+/-
+  Props/C08.lean — symmetric encryption (`src/extension/encrypt.rs`).
+
+  "Encrypting the subject (or the wrapped whole) of an envelope under a symmetric key keeps
+  every digest; decrypting with the same key returns the identical envelope; decrypting
+  with another key, or anything whose ciphertext, tag, nonce or additional data was
+  altered, fails; content that does not match the digest declared in the additional data
+  is refused (`InvalidDigest`); an already encrypted or elided subject is refused."
+
+  Hypotheses (never axioms).
+  * `Inv h e` (Model/Inv.lean) and `hH : ∀ b, (h.H b).Valid` — the hash returns 32 bytes
+    (SHA-256 does), so that the digest written into the additional data reads back.  That
+    read-back (`AadReadsBack`) is *proved* for the model codec (`Obs.aadReadsBack`).
+  * `L : AeadLaws A` (Lemmas/Laws.lean) — the idealised AEAD; satisfied by
+    `ToyDeps.toyAead` (`ToyDeps.toyAead_laws`).
+  * `RoundTrips h x` — `decode h (encode x) = .ok x` for the one envelope `x` that is
+    encrypted (the subject, or the wrapped whole).  It is the conclusion of C05
+    `decode_encode` (from `CodecLaws`, `Inv h x`, `EncShape x`, `Encodable x`).  It is not
+    taken for every `Inv` envelope, because that is false (`Obs.not_forall_inv_roundTrips`).
+
+  Observation recorded by `encryptSubject_ok_iff`: `encrypt_subject` refuses a bare elided
+  envelope (`AlreadyElided`) but accepts a *node* whose subject is elided (it encrypts the
+  32-byte placeholder); only an already encrypted subject is refused in the node case.
+  The round trip holds there too.
+-/
+import EnvVerif.Lemmas.ObscureLemmas
 namespace EnvVerif
-/-- placeholder while the property theorems are being written -/
-theorem c08_sort_asc_id {as : List Env} (hs : AscDigests as) : sortByDigest as = as := sortByDigest_of_asc hs
+open Env
+
+section
+variable (h : Hash) (A : Aead)
+
+/-! ### when `encrypt_subject` succeeds, and what it returns -/
+
+/-- exact refusal conditions: an already encrypted subject, or a bare elided envelope -/
+theorem encryptSubject_ok_iff (k n : Bytes) (e : Env) (hi : Inv h e) (hH : ∀ b, (h.H b).Valid) :
+    (∃ r, encryptSubject h A k n e = .ok r) ↔
+      (e.subject.isEncrypted = false ∧ e.isElided = false) := by
+  rw [Obs.encryptSubject_eq' h A k n hi hH, ← Obs.encryptRefusal_eq_none]
+  cases Obs.encryptRefusal e <;> simp
+
+/-- the two errors, exactly -/
+theorem encryptSubject_err_iff (k n : Bytes) (e : Env) (x : String) (hi : Inv h e)
+    (hH : ∀ b, (h.H b).Valid) :
+    encryptSubject h A k n e = .err x ↔
+      (x = "AlreadyEncrypted" ∧ e.subject.isEncrypted = true) ∨
+      (x = "AlreadyElided" ∧ e.isElided = true) := by
+  rw [Obs.encryptSubject_eq' h A k n hi hH, ← Obs.encryptRefusal_eq_some]
+  cases Obs.encryptRefusal e <;> simp
+
+/-- no panic: neither `new_with_encrypted(..).unwrap()` nor the closing `assert_eq!` fires -/
+theorem encryptSubject_no_panic (k n : Bytes) (e : Env) (hi : Inv h e) (hH : ∀ b, (h.H b).Valid)
+    (s : String) : encryptSubject h A k n e ≠ .panic s := by
+  rw [Obs.encryptSubject_eq' h A k n hi hH]
+  cases Obs.encryptRefusal e <;> (intro hh; cases hh)
+
+/-- the result: the subject is replaced by the encrypted element carrying the subject's
+encoding, sealed with the subject's digest as additional data; the assertions, the case
+(node or not) and the digest are unchanged -/
+theorem encryptSubject_shape (k n : Bytes) (e r : Env) (hi : Inv h e) (hH : ∀ b, (h.H b).Valid)
+    (hr : encryptSubject h A k n e = .ok r) :
+    r.subject = .encrypted (encryptWithDigest A k n (encode e.subject) e.subject.digest)
+        e.subject.digest ∧
+      r.assertions = e.assertions ∧ r.isNode = e.isNode ∧ r.digest = e.digest := by
+  obtain ⟨rfl, _⟩ := Obs.encryptSubject_ok h A k n hi hH hr
+  cases e <;> exact ⟨rfl, rfl, rfl, rfl⟩
+
+/-- C08: encryption keeps the digest -/
+theorem encryptSubject_digest (k n : Bytes) (e r : Env) (hi : Inv h e) (hH : ∀ b, (h.H b).Valid)
+    (hr : encryptSubject h A k n e = .ok r) : r.digest = e.digest :=
+  (encryptSubject_shape h A k n e r hi hH hr).2.2.2
+
+theorem encryptSubject_subject_encrypted (k n : Bytes) (e r : Env) (hi : Inv h e)
+    (hH : ∀ b, (h.H b).Valid) (hr : encryptSubject h A k n e = .ok r) :
+    r.subject.isEncrypted = true := by
+  rw [(encryptSubject_shape h A k n e r hi hH hr).1]
+  rfl
+
+/-- the result satisfies the invariant -/
+theorem encryptSubject_inv (k n : Bytes) (e r : Env) (hi : Inv h e) (hH : ∀ b, (h.H b).Valid)
+    (hr : encryptSubject h A k n e = .ok r) : Inv h r := by
+  obtain ⟨rfl, _⟩ := Obs.encryptSubject_ok h A k n hi hH hr
+  exact Obs.encryptSubjectSpec_inv h A k n hi hH
+
+/-- encrypting an encrypted subject again is refused, whatever the key and nonce -/
+theorem encrypt_twice_refused (k n k' n' : Bytes) (e r : Env) (hi : Inv h e)
+    (hH : ∀ b, (h.H b).Valid) (hr : encryptSubject h A k n e = .ok r) :
+    encryptSubject h A k' n' r = .err "AlreadyEncrypted" := by
+  have hri := encryptSubject_inv h A k n e r hi hH hr
+  rw [encryptSubject_err_iff h A k' n' r _ hri hH]
+  exact Or.inl ⟨rfl, encryptSubject_subject_encrypted h A k n e r hi hH hr⟩
+
+/-! ### the round trip -/
+
+/-- C08: decrypting with the same key returns the identical envelope — for every subject
+case (leaf, known value, wrapped, assertion, compressed, elided subject of a node, node
+subject of a node), with or without assertions -/
+theorem decryptSubject_encryptSubject (L : AeadLaws A) (k n : Bytes) (e r : Env) (hi : Inv h e)
+    (hH : ∀ b, (h.H b).Valid) (hrt : RoundTrips h e.subject)
+    (hr : encryptSubject h A k n e = .ok r) : decryptSubject h A k r = .ok e := by
+  obtain ⟨rfl, hnone⟩ := Obs.encryptSubject_ok h A k n hi hH hr
+  have hv := Obs.digest_valid hH (Obs.inv_subject hi)
+  cases e with
+  | node s as d =>
+    simp only [Env.subject] at hv hrt
+    simp only [Obs.encryptSubjectSpec, Obs.encSubj]
+    rw [Obs.decryptSubject_node_form h A (Obs.decryptMsg_encryptWithDigest L k n _ _)
+      (Obs.optDigest_encryptWithDigest A k n _ hv) hrt, Obs.rebuild_node h hi rfl]
+    simp only [Env.digest, bne_self_eq_false, Bool.false_eq_true, if_false]
+  | encrypted m d => cases hnone
+  | elided d => cases hnone
+  | leaf c d =>
+    simp only [Env.subject] at hv hrt
+    simp only [Obs.encryptSubjectSpec, Obs.encSubj]
+    rw [Obs.decryptSubject_leaf_form h A (Obs.decryptMsg_encryptWithDigest L k n _ _)
+      (Obs.optDigest_encryptWithDigest A k n _ hv) hrt]
+    simp only [bne_self_eq_false, Bool.false_eq_true, if_false]
+  | wrapped x d =>
+    simp only [Env.subject] at hv hrt
+    simp only [Obs.encryptSubjectSpec, Obs.encSubj]
+    rw [Obs.decryptSubject_leaf_form h A (Obs.decryptMsg_encryptWithDigest L k n _ _)
+      (Obs.optDigest_encryptWithDigest A k n _ hv) hrt]
+    simp only [bne_self_eq_false, Bool.false_eq_true, if_false]
+  | assertion p o d =>
+    simp only [Env.subject] at hv hrt
+    simp only [Obs.encryptSubjectSpec, Obs.encSubj]
+    rw [Obs.decryptSubject_leaf_form h A (Obs.decryptMsg_encryptWithDigest L k n _ _)
+      (Obs.optDigest_encryptWithDigest A k n _ hv) hrt]
+    simp only [bne_self_eq_false, Bool.false_eq_true, if_false]
+  | knownValue v d =>
+    simp only [Env.subject] at hv hrt
+    simp only [Obs.encryptSubjectSpec, Obs.encSubj]
+    rw [Obs.decryptSubject_leaf_form h A (Obs.decryptMsg_encryptWithDigest L k n _ _)
+      (Obs.optDigest_encryptWithDigest A k n _ hv) hrt]
+    simp only [bne_self_eq_false, Bool.false_eq_true, if_false]
+  | compressed c d =>
+    simp only [Env.subject] at hv hrt
+    simp only [Obs.encryptSubjectSpec, Obs.encSubj]
+    rw [Obs.decryptSubject_leaf_form h A (Obs.decryptMsg_encryptWithDigest L k n _ _)
+      (Obs.optDigest_encryptWithDigest A k n _ hv) hrt]
+    simp only [bne_self_eq_false, Bool.false_eq_true, if_false]
+
+/-! ### wrong key, tampering -/
+
+/-- C08: another key does not decrypt -/
+theorem decrypt_wrong_key (L : AeadLaws A) (k k' n : Bytes) (e r : Env) (hi : Inv h e)
+    (hH : ∀ b, (h.H b).Valid) (hr : encryptSubject h A k n e = .ok r) (hk : k' ≠ k) :
+    decryptSubject h A k' r = .err "dep:Decrypt_failed" := by
+  have hs := (encryptSubject_shape h A k n e r hi hH hr).1
+  exact Obs.decryptSubject_dec_none h A hs (Obs.decryptMsg_wrong_key L hk n _ _)
+
+/-- C08: a message that was not sealed under this key with its own nonce and additional
+data (that is what tampering by someone without the key produces) does not decrypt -/
+theorem decrypt_tampered (L : AeadLaws A) (k : Bytes) (r : Env) (m : EncMsg) (d : Digest)
+    (hs : r.subject = .encrypted m d)
+    (hforged : ∀ p, (m.ciphertext, m.auth) ≠ A.enc k m.nonce p m.aad) :
+    decryptSubject h A k r = .err "dep:Decrypt_failed" := by
+  apply Obs.decryptSubject_dec_none h A hs
+  cases hd : decryptMsg A k m with
+  | none => rfl
+  | some p => exact absurd (L.dec_only_enc _ _ _ _ _ _ hd) (hforged p)
+
+/-- ... in particular: changing the nonce of a sealed message -/
+theorem decrypt_tampered_nonce (L : AeadLaws A) (k n p a n' : Bytes) (r : Env) (d : Digest)
+    (hs : r.subject = .encrypted ⟨(A.enc k n p a).1, n', (A.enc k n p a).2, a⟩ d) (hn : n' ≠ n) :
+    decryptSubject h A k r = .err "dep:Decrypt_failed" :=
+  Obs.decryptSubject_dec_none h A hs (L.dec_other k n p a k n' a (Or.inr (Or.inl hn)))
+
+/-- ... changing the additional data (the declared digest) of a sealed message -/
+theorem decrypt_tampered_aad (L : AeadLaws A) (k n p a a' : Bytes) (r : Env) (d : Digest)
+    (hs : r.subject = .encrypted ⟨(A.enc k n p a).1, n, (A.enc k n p a).2, a'⟩ d) (ha : a' ≠ a) :
+    decryptSubject h A k r = .err "dep:Decrypt_failed" :=
+  Obs.decryptSubject_dec_none h A hs (L.dec_other k n p a k n a' (Or.inr (Or.inr ha)))
+
+/-- ... changing the ciphertext or the tag of a sealed message: decryption fails, unless
+the new pair is itself what the key seals for another plaintext under the same nonce and
+additional data (which only a key holder can make; `decrypt_misdeclared` then applies) -/
+theorem decrypt_tampered_ciphertext_or_tag (L : AeadLaws A) (k n p a c' t' : Bytes) (r : Env)
+    (d : Digest) (hs : r.subject = .encrypted ⟨c', n, t', a⟩ d) (hne : (c', t') ≠ A.enc k n p a) :
+    decryptSubject h A k r = .err "dep:Decrypt_failed" ∨
+      ∃ p', p' ≠ p ∧ (c', t') = A.enc k n p' a := by
+  rcases L.dec_tampered k n p a c' t' hne with hnone | ⟨p', hp, _, he⟩
+  · exact Or.inl (Obs.decryptSubject_dec_none h A hs hnone)
+  · exact Or.inr ⟨p', hp, he⟩
+
+/-- every single-field tampering of what `encrypt_subject` produced: with the right key, a
+changed nonce or changed additional data fails; a changed ciphertext or tag fails, unless
+the new pair is the key holder's own sealing of another plaintext -/
+theorem decrypt_encrypted_tampered (L : AeadLaws A) (k n : Bytes) (e r : Env) (hi : Inv h e)
+    (hH : ∀ b, (h.H b).Valid) (hr : encryptSubject h A k n e = .ok r) :
+    let m := encryptWithDigest A k n (encode e.subject) e.subject.digest
+    r.subject = .encrypted m e.subject.digest ∧
+    (∀ (r' : Env) (c' t' : Bytes) (d' : Digest),
+      r'.subject = .encrypted { m with ciphertext := c', auth := t' } d' →
+      (c', t') ≠ (m.ciphertext, m.auth) →
+      decryptSubject h A k r' = .err "dep:Decrypt_failed" ∨
+        ∃ p', p' ≠ encode e.subject ∧ (c', t') = A.enc k n p' m.aad) ∧
+    (∀ (r' : Env) (n' : Bytes) (d' : Digest), r'.subject = .encrypted { m with nonce := n' } d' →
+      n' ≠ n → decryptSubject h A k r' = .err "dep:Decrypt_failed") ∧
+    (∀ (r' : Env) (a' : Bytes) (d' : Digest), r'.subject = .encrypted { m with aad := a' } d' →
+      a' ≠ m.aad → decryptSubject h A k r' = .err "dep:Decrypt_failed") := by
+  intro m
+  refine ⟨(encryptSubject_shape h A k n e r hi hH hr).1, ?_, ?_, ?_⟩
+  · intro r' c' t' d' hs hne
+    exact decrypt_tampered_ciphertext_or_tag h A L k n (encode e.subject) m.aad c' t' r' d' hs hne
+  · intro r' n' d' hs hn
+    exact decrypt_tampered_nonce h A L k n (encode e.subject) m.aad n' r' d' hs hn
+  · intro r' a' d' hs ha
+    exact decrypt_tampered_aad h A L k n (encode e.subject) m.aad a' r' d' hs ha
+
+/-! ### misdeclared content -/
+
+/-- C08: the first comparison of `decrypt_subject`: content whose digest is not the one
+declared in the additional data is refused -/
+theorem decrypt_misdeclared (k : Bytes) (r : Env) (m : EncMsg) (d declared : Digest) (pt : Bytes)
+    (x : Env) (hs : r.subject = .encrypted m d) (hd : decryptMsg A k m = some pt)
+    (ho : m.optDigest = some declared) (hx : decode h pt = .ok x) (hne : x.digest ≠ declared) :
+    decryptSubject h A k r = .err "InvalidDigest" := by
+  have hb : (x.digest != declared) = true := by simpa using hne
+  rcases Obs.subject_encrypted_cases hs with rfl | ⟨as, d', rfl⟩
+  · rw [Obs.decryptSubject_leaf_form h A hd ho hx, if_pos hb]
+  · rw [Obs.decryptSubject_node_form h A hd ho hx, if_pos hb]
+
+/-- C08: the second comparison of `decrypt_subject`: a node whose digest is not the one
+recomputed over the decrypted subject and the assertions is refused -/
+theorem decrypt_misdeclared_node (k : Bytes) (m : EncMsg) (ds d declared : Digest)
+    (as : List Env) (pt : Bytes) (x : Env) (hd : decryptMsg A k m = some pt)
+    (ho : m.optDigest = some declared) (hx : decode h pt = .ok x) (hxd : x.digest = declared)
+    (hne : as ≠ []) (hnd : (mkNode h x as).digest ≠ d) :
+    decryptSubject h A k (.node (.encrypted m ds) as d) = .err "InvalidDigest" := by
+  have hb : (x.digest != declared) = false := by simp [hxd]
+  have hb2 : ((mkNode h x as).digest != d) = true := by simpa using hnd
+  rw [Obs.decryptSubject_node_form h A hd ho hx, hb, Obs.newNodeUnchecked_ne h hne]
+  simp only [Bool.false_eq_true, if_false, hb2, if_true]
+
+/-- whatever decrypts has the digest of what was decrypted -/
+theorem decryptSubject_digest (k : Bytes) (r x : Env) (hw : WF h r)
+    (hr : decryptSubject h A k r = .ok x) : x.digest = r.digest := by
+  obtain ⟨m, d0, pt, dd, rs, _, _, ho, _, hrs, hcase⟩ := Obs.decryptSubject_ok_inv h A hr
+  rcases hcase with ⟨rfl, rfl⟩ | ⟨as, d, rfl, _, hxd⟩
+  · simp only [WF] at hw
+    rw [hw] at ho
+    cases ho
+    exact hrs
+  · exact hxd
+
+/-- `decrypt_subject` of a subject that is not encrypted -/
+theorem decryptSubject_not_encrypted (k : Bytes) (r : Env) (hs : r.subject.isEncrypted = false) :
+    decryptSubject h A k r = .err "NotEncrypted" :=
+  Obs.decryptSubject_not_encrypted h A hs
+
+/-- no panic: the decoder never panics and a canonical node has an assertion -/
+theorem decryptSubject_no_panic (k : Bytes) (r : Env) (hc : Canon r) (s : String) :
+    decryptSubject h A k r ≠ .panic s :=
+  Obs.decryptSubject_np h A hc s
+
+/-! ### the wrapped whole -/
+
+/-- `encrypt` never fails (and never panics): the wrapped envelope is neither encrypted
+nor elided -/
+theorem encryptWhole_ok (k n : Bytes) (e : Env) (hi : Inv h e) (hH : ∀ b, (h.H b).Valid) :
+    ∃ r, encryptWhole h A k n e = .ok r ∧ encryptSubject h A k n (wrap h e) = .ok r := by
+  have hw := Obs.inv_wrap hi
+  obtain ⟨r, hr⟩ := (encryptSubject_ok_iff h A k n (wrap h e) hw hH).mpr ⟨rfl, rfl⟩
+  exact ⟨r, by unfold encryptWhole; rw [hr], hr⟩
+
+/-- the digest of the encrypted whole is the digest of the wrapped envelope -/
+theorem encryptWhole_digest (k n : Bytes) (e r : Env) (hi : Inv h e) (hH : ∀ b, (h.H b).Valid)
+    (hr : encryptWhole h A k n e = .ok r) : r.digest = (wrap h e).digest := by
+  obtain ⟨r', hr', hs⟩ := encryptWhole_ok h A k n e hi hH
+  rw [hr] at hr'
+  cases hr'
+  exact encryptSubject_digest h A k n (wrap h e) r (Obs.inv_wrap hi) hH hs
+
+/-- C08: `decrypt (encrypt e) = e` -/
+theorem decryptWhole_encryptWhole (L : AeadLaws A) (k n : Bytes) (e r : Env) (hi : Inv h e)
+    (hH : ∀ b, (h.H b).Valid) (hrt : RoundTrips h (wrap h e))
+    (hr : encryptWhole h A k n e = .ok r) : decryptWhole h A k r = .ok e := by
+  obtain ⟨r', hr', hs⟩ := encryptWhole_ok h A k n e hi hH
+  rw [hr] at hr'
+  cases hr'
+  have hd := decryptSubject_encryptSubject h A L k n (wrap h e) r (Obs.inv_wrap hi) hH hrt hs
+  simp only [decryptWhole, hd]
+  rfl
+
+/-- ... and with another key it fails -/
+theorem decryptWhole_wrong_key (L : AeadLaws A) (k k' n : Bytes) (e r : Env) (hi : Inv h e)
+    (hH : ∀ b, (h.H b).Valid) (hr : encryptWhole h A k n e = .ok r) (hk : k' ≠ k) :
+    decryptWhole h A k' r = .err "dep:Decrypt_failed" := by
+  obtain ⟨r', hr', hs⟩ := encryptWhole_ok h A k n e hi hH
+  rw [hr] at hr'
+  cases hr'
+  simp only [decryptWhole, decrypt_wrong_key h A L k k' n (wrap h e) r (Obs.inv_wrap hi) hH hs hk]
+  rfl
+
+end
 end EnvVerif
